@@ -91,7 +91,7 @@ theorem wfr_insert {s s' : Sys π ν} (hs : Sane s) (hs' : Sane s') (hw : WFr s)
     rw [hnodes, hrails]
     apply resolve_append _ _ _ hx
     intro hnone e
-    rcases resolve_some hx with h1 | ⟨_, o, h2, _⟩
+    rcases resolve_some hx with h1 | ⟨_, _, o, h2, _⟩
     · rw [hnone] at h1; simp at h1
     · have : (o, x) ∈ s.rails := List.mem_of_find?_eq_some h2
       exact hn2 (e ▸ mem_dvals.mpr ⟨o, this⟩)
